@@ -203,7 +203,7 @@ StepViolations(e) ==
     \cup (IF e.unord > 0 THEN {"EmittedInVersionOrder"} ELSE {})
     \cup (IF e.op = "Encode" THEN EncodeViolations(e) ELSE {})
     \cup (IF e.op = "EncodeDigest" THEN EncodeDigestViolations(e) ELSE {})
-    \cup (IF e.op # "RemoveExpired" /\ \E o \in Node : Known(o) \ DOMAIN st'[o] # {}
+    \cup (IF e.op \notin {"RemoveExpired", "RaceExpiry"} /\ \E o \in Node : Known(o) \ DOMAIN st'[o] # {}
           THEN {"NoSilentRemoval"} ELSE {})
     \cup (IF ~FreshVersionStep THEN {"FreshVersionOnChange"} ELSE {})
     \cup (IF e.op \in {"UpsertLocal", "DeleteLocal"} /\ LiveMap(OwnNext(e.n)) = LiveMap(Own(e.n))
@@ -259,13 +259,13 @@ TraceNext ==
         /\ evts' = EvSeqOf(e.evts)
         /\ written' = [n \in Node |-> (IF reset THEN {} ELSE written[n]) \cup st'[n][n].ents]
         /\ expiredBy' = IF reset THEN EmptyS
-                        ELSE IF e.op = "RemoveExpired"
+                        ELSE IF e.op \in {"RemoveExpired", "RaceExpiry"}
                              THEN [expiredBy EXCEPT ![e.a] = @ \cup Range(e.ord)]
                              ELSE expiredBy
         /\ f4taint' = IF reset THEN {}
                       ELSE IF e.op = "RecvDelta"
                            THEN f4taint \cup {<<net[e.slot].to, n>> : n \in F4Sig(net[e.slot].to, net[e.slot])}
-                      ELSE IF e.op = "RemoveExpired"
+                      ELSE IF e.op \in {"RemoveExpired", "RaceExpiry"}
                            THEN {p \in f4taint : ~(p[1] = e.a /\ p[2] \in Range(e.ord))}
                       ELSE f4taint
         /\ relearned' =
@@ -277,7 +277,7 @@ TraceNext ==
                                  \cup {<<e.b, n>> : n \in F2Sig(e.b, NewOf(e.b))}
              ELSE IF e.op = "LeaveStream"
                   THEN relearned \cup {<<e.b, n>> : n \in F2Sig(e.b, NewOf(e.b))}
-             ELSE IF e.op = "RemoveExpired"
+             ELSE IF e.op \in {"RemoveExpired", "RaceExpiry"}
                   THEN {p \in relearned : ~(p[1] = e.a /\ p[2] \in Range(e.ord))}
              ELSE relearned
         /\ ref' = IF reset THEN [n \in Node |-> RefFromOwn(st'[n][n])]
@@ -289,14 +289,15 @@ TraceNext ==
         /\ rt' = SyncAll(IF reset THEN [o \in Node |-> EmptyRT] ELSE rt, evts')
         /\ obsrt' = ObsRTOf(e.tables, rt')
         /\ dropped' = IF reset THEN {}
-                      ELSE LET base == IF e.op = "RemoveExpired"
+                      ELSE LET base == IF e.op \in {"RemoveExpired", "RaceExpiry"}
                                        THEN {p \in dropped : ~(p[1] = e.a /\ p[2] \in Range(e.ord))}
                                        ELSE dropped
                            from == IF reset THEN [o \in Node |-> EmptyRT] ELSE obsrt
                       IN base \cup UNION {{<<o, n>> : n \in LeftWhilePending(from[o], o, evts')} : o \in Node}
         /\ viol' = StepViolations(e)
-        /\ drift' = drift + (IF reset \/ (CoreOK(e) /\ EvOK(e)) THEN 0 ELSE 1)
-                          + (IF obsrt' = rt' THEN 0 ELSE 1)
+        \* (RaceExpiry: an expiry sweep raced against an incoming delta by two goroutines; only the outcome is judged)
+        /\ drift' = drift + (IF reset \/ e.op = "RaceExpiry" \/ (CoreOK(e) /\ EvOK(e)) THEN 0 ELSE 1)
+                          + (IF obsrt' = rt' \/ e.op = "RaceExpiry" THEN 0 ELSE 1)
         /\ sig' = [f2 |-> sig.f2 + Cardinality(relearned' \ relearned),
                    f4 |-> sig.f4 + Cardinality(f4taint' \ f4taint),
                    f5 |-> sig.f5 + Cardinality(dropped' \ dropped)]
@@ -315,6 +316,7 @@ CaughtUpMirrorsNoF5 == CaughtUpMirrorsOf(obsrt)
 CaughtUpMirrorsAll == CaughtUpMirrorsStrictOf(obsrt)
 StatusTracks == StatusTracksOf(obsrt)
 NoOrphans == NoOrphansOf(obsrt)
+AllKnownTracked == AllKnownTrackedOf(obsrt)
 
 \* the whole file was consumed; the counters are printed for the orchestrator
 Consumed ==
